@@ -58,7 +58,7 @@ Fixpoint headers_loop (fuel : nat) (rest : bytes) : res (list header * bytes) :=
     else
       let h := parse_header_line line in
       if beqs (hname h) content_length_name && (match parse_usize (hvalue h) with None => true | Some _ => false end)
-      then Panic PContentLength
+      then Ok ([], rest')             (* fix d8787b6: an Err, logged by the caller like the non-UTF-8 case (was a panic) *)
       else match headers_loop f rest' with
            | Ok (hs, bd) => Ok (h :: hs, bd)
            | Err e => Err e
@@ -94,5 +94,5 @@ Proof. vm_compute. reflexivity. Qed.
 Example ex2 : parse_request [71;69;84;32;32;47;32;72;84;84;80;47;49;46;49;13;10;13;10] = Err EReqLine.   (* two spaces *)
 Proof. vm_compute. reflexivity. Qed.
 Example ex3 : parse_request ([71;69;84;32;47;32;72;84;84;80;47;49;46;49;13;10] ++ content_length_name ++ [58;32;97;13;10;13;10])
-  = Panic PContentLength.
+  = Ok (mkR [71;69;84] [47] [72;84;84;80;47;49;46;49] [empty_header] [13;10]).
 Proof. vm_compute. reflexivity. Qed.
